@@ -100,9 +100,12 @@ def check_one(txt):
     return ('ok', txt, '')
 
 
-def small_grammar_obligations(max_size=3, procs=16, full=False):
+def small_grammar_obligations(max_size=3, procs=16, full=False, also_size4=False):
     t0 = time.time()
     gs = list(grammars(max_size, full))
+    if also_size4:
+        have = set(gs)
+        gs += [x for x in grammars(4, False) if x not in have]      # four symbol occurrences over the 3-symbol set
     ctx = mp.get_context('fork')
     with ctx.Pool(procs) as pool:
         res = pool.map(check_one, gs, chunksize=64)
@@ -117,7 +120,8 @@ def small_grammar_obligations(max_size=3, procs=16, full=False):
     F = ['parso.pgen2.generator.generate_grammar']
     stats = dict(evaluations=len(gs), distinct_nontrivial=cnt.get('ok', 0) + cnt.get('rejected', 0), counts=cnt,
                  samples=gs[:3] + gs[-2:],
-                 rule='every 2-rule grammar a: <rhs> NEWLINE / b: <one of 5 bodies, two of which start with a> with <rhs> an EBNF tree of <= %d symbol '
+                 rule=('(plus every such grammar with 4 symbol occurrences over %r) ' % (SYMS3,) if also_size4 else '') +
+                      'every 2-rule grammar a: <rhs> NEWLINE / b: <one of 5 bodies, two of which start with a> with <rhs> an EBNF tree of <= %d symbol '
                       'occurrences over %r (each occurrence plain, starred or optional) combined by sequence, alternation and one outer [] ()* ()+; grammars with a '
                       'nullable rule are skipped; non-trivial = accepted with certificates or rejected as expected' % (max_size, SYMS))
     if not fails:
